@@ -109,3 +109,26 @@ SPECS["C10"] = dict(
         ]),
     ],
 )
+
+SPECS["C12"] = dict(
+    level="exploration",
+    technique="stateful property-based testing (rapid) of the byte-slice and ring-buffer pools against a memory-range ownership ledger with canaries; concurrent variant with generated worker scripts",
+    rule="a case is a generated sequence of Get(size)/Put(exact)/Put(re-sliced tail while the head stays owned)/Put(foreign odd-capacity slice carved from a canary-filled arena)/"
+         "Put(empty)/runtime.GC on a fresh Pool or the global pool (sizes 0..2^20 biased to 2^k+-2), a generated multi-goroutine Get/Put script, or a mixed ring-pool/byte-slice-pool "
+         "sequence with ring writes that force growth; after every step all handed-out ranges are pairwise disjoint, inside what was returned, and their canaries intact; "
+         "non-trivial = some Get was served from recycled memory (address seen before); distinct = distinct history/script",
+    assumptions=["the harness keeps every slice it ever saw reachable, so the allocator cannot legitimately reuse an address", "sizes above 2^20 are covered arithmetically by C20, not by allocation"],
+    overlay=["verifx/c12"],
+    jobs=[
+        dict(name="c12", pkg="./verifx/c12", tests=[
+            dict(id="fresh", run="^TestC12ByteSliceFresh$", quick=dict(shards=6, checks=2500, timeout=300, steps=40),
+                 thorough=dict(shards=8, checks=60000, timeout=1800, steps=60)),
+            dict(id="global", run="^TestC12ByteSliceGlobal$", quick=dict(shards=3, checks=1500, timeout=300, steps=40),
+                 thorough=dict(shards=4, checks=40000, timeout=1800, steps=60)),
+            dict(id="concurrent", run="^TestC12Concurrent$", quick=dict(shards=2, checks=300, timeout=300),
+                 thorough=dict(shards=2, checks=6000, timeout=1800)),
+            dict(id="ringpool", run="^TestC12RingPool$", quick=dict(shards=4, checks=2000, timeout=300, steps=40),
+                 thorough=dict(shards=6, checks=40000, timeout=1800, steps=60)),
+        ]),
+    ],
+)
